@@ -95,7 +95,7 @@ class Hist:
 OPNAMES = ('create_batch', 'create_update', 'create_groups', 'create_jobs', 'commit', 'cancel_group', 'delete_batch', 'new_instance',
            'activate_instance', 'deactivate_instance', 'mark_instance_deleted', 'schedule_job', 'unschedule_job', 'mark_creating',
            'mark_started', 'mark_complete', 'add_attempt_resources', 'billing_update', 'cleanup_staging', 'cleanup_cancellable',
-           'compact_billing', 'scheduler_pick', 'canceller_pick')
+           'compact_billing', 'scheduler_pick', 'canceller_pick', 'nonsense')
 
 
 def _family(key):
@@ -250,6 +250,8 @@ def c03(v, h, op, res, k, prev):
             h.report('C03', f'C03:billed-exceeds-attempt:after-{op["op"]}', k, list(a))
         if end is not None and start is None and billed(a) != 0:
             h.report('C03', 'C03:billed-without-start', k, list(a))
+        if reason == 'activation_timeout' and billed(a) != 0:
+            h.report('C03', f'C03:activation-timeout-attempt-billed:after-{op["op"]}', k, list(a))
         if (end is None) != (reason is None):
             h.report('C03', f'C03:end-without-reason-or-reason-without-end:after-{op["op"]}', k, list(a))
         if prev is None:
@@ -258,14 +260,15 @@ def c03(v, h, op, res, k, prev):
         if o is None:
             continue
         ostart, orollup, oend, oreason = o[4], o[5], o[6], o[7]
-        timeout = reason == 'activation_timeout'
+        timeout = reason == 'activation_timeout' and oreason != 'activation_timeout'      # this report MARKS the timeout
         corrected = oend is not None and end is not None and end < oend
         if billed(a) < billed(o) and not timeout and not corrected:
             h.report('C03', f'C03:billed-time-decreased:after-{op["op"]}', k, {'before': list(o), 'after': list(a)})
         if ostart is not None and not timeout and (start is None or start > ostart):
             h.report('C03', f'C03:start-moved-later:after-{op["op"]}', k, {'before': list(o), 'after': list(a)})
         if oreason is not None:
-            if reason != oreason or (oend is not None and (end is None or end > oend)):
+            earlier = oend is not None and end is not None and end < oend      # the one permitted correction (reason follows the end)
+            if not earlier and (reason != oreason or end != oend):
                 h.report('C03', f'C03:ended-attempt-end-or-reason-replaced:after-{op["op"]}', k, {'before': list(o), 'after': list(a)})
 
 
@@ -461,10 +464,10 @@ def note_new_jobs(v, h, op, res, k, prev):
         for q in ps:
             if q == jid:
                 h.report('C08', 'C08:accepted-self-dependency', k, {'job': jid})
-            elif q > jid:
-                h.report('C08', 'C08:accepted-later-dependency', k, {'job': jid, 'parent': q})
             elif (bb, q) not in v.jobs:
                 h.report('C08', 'C08:accepted-missing-dependency', k, {'job': jid, 'parent': q})
+            elif q > jid:
+                h.report('C08', 'C08:accepted-later-dependency', k, {'job': jid, 'parent': q})
     # a swallowed bunch (ER_DUP_ENTRY) whose ids belong to ANOTHER update's range
     if not new:
         for a in specs:
@@ -555,7 +558,9 @@ def c41(v, h, op, res, k, prev):
         for b, jid in res['ok']['jobs']:
             j = v.jobs.get((b, jid))
             if j is not None and not v.job_committed(j):
-                h.report('C41', 'C41:uncommitted-job-offered-by-scheduler', k, list(j))
+                cause = 'staged-update-1-job-while-later-update-committed' if (j.update == 1 and not h.parents.get((b, jid))) \
+                    else 'job-released-before-its-update-committed'
+                h.report('C41', f'C41:uncommitted-job-offered-by-scheduler:{cause}', k, list(j))
     if op['op'] in ('schedule_job', 'mark_creating', 'mark_started') and 'ok' in res and prev is not None:
         j = v.jobs.get((op.get('batch'), op.get('job')))
         o = prev.jobs.get((op.get('batch'), op.get('job')))
@@ -624,85 +629,16 @@ async def run_ops(live, ops, seed):
 
 
 async def drain(live, ops, ents, max_rounds=40):
-    """Simulate a fair driver after the history (C39 liveness).  Returns (extra ops, extra ents, problems)."""
-    extra, xents, problems = [], [], []
-    v = View(ents[-1]['obs']) if ents else None
-    if v is None:
-        return extra, xents, problems
-    t = [max([o.get('time', 0) for o in ops if isinstance(o.get('time'), int)] + [1000]) + 1000]
-    n_att = [0]
-    n_inst = [0]
-
-    async def do(op):
-        ent = await live.step(op)
-        extra.append(op)
-        xents.append(ent)
-        return ent
-
-    def now():
-        t[0] += 10
-        return t[0]
-
-    for _round in range(max_rounds):
-        progressed = False
-        v = View(xents[-1]['obs'] if xents else ents[-1]['obs'])
-        users = sorted({r[1] for r in v.batches.values()})
-        for u in users:
-            r = (await do({'op': 'canceller_pick', 'kind': 'ready', 'user': u}))['result']
-            for b, j in r.get('ok', {}).get('jobs', []):
-                e = await do({'op': 'mark_complete', 'batch': b, 'job': j, 'attempt': None, 'instance': None, 'state': 'Cancelled',
-                              'start': None, 'end': None, 'reason': 'cancelled', 'time': now()})
-                progressed = True
-                if 'err' in e['result']:
-                    problems.append(f"cancel-ready:{e['result']['err']}")
-            for kind in ('creating', 'running'):
-                r = (await do({'op': 'canceller_pick', 'kind': kind, 'user': u}))['result']
-                vv = View(xents[-1]['obs'])
-                for b, j in r.get('ok', {}).get('jobs', []):
-                    for (bb, jj, a), at in sorted(vv.attempts.items()):
-                        if (bb, jj) != (b, j):
-                            continue
-                        progressed = True
-                        if kind == 'creating':
-                            e = await do({'op': 'mark_complete', 'batch': b, 'job': j, 'attempt': a, 'instance': at[3], 'state': 'Cancelled',
-                                          'start': None, 'end': now(), 'reason': 'cancelled', 'time': now()})
-                            await do({'op': 'deactivate_instance', 'name': at[3], 'reason': 'cancelled', 'time': now()})
-                        else:
-                            e = await do({'op': 'unschedule_job', 'batch': b, 'job': j, 'attempt': a, 'instance': at[3], 'time': now(),
-                                          'reason': 'cancelled'})
-                        if 'err' in e['result']:
-                            problems.append(f"cancel-{kind}:{e['result']['err']}")
-            for ic, is_pool in sorted(live.config['inst_colls'].items()):
-                r = (await do({'op': 'scheduler_pick', 'inst_coll': ic, 'user': u}))['result']
-                for b, j in r.get('ok', {}).get('jobs', []):
-                    vv = View(xents[-1]['obs'])
-                    job = vv.jobs[(b, j)]
-                    n_att[0] += 1
-                    a = f'drain{n_att[0]}'
-                    n_inst[0] += 1
-                    name = f'drain-i{n_inst[0]}'
-                    cores = max(1000, ((job.cores + 999) // 1000) * 1000)
-                    await do({'op': 'new_instance', 'name': name, 'inst_coll': ic, 'cores': cores})
-                    if not is_pool:
-                        e = await do({'op': 'mark_creating', 'batch': b, 'job': j, 'attempt': a, 'instance': name, 'time': now()})
-                        if 'err' in e['result']:
-                            problems.append(f"mark_creating:{e['result']['err']}")
-                    await do({'op': 'activate_instance', 'name': name, 'time': now()})
-                    e = await do({'op': 'schedule_job', 'batch': b, 'job': j, 'attempt': a, 'instance': name})
-                    if 'err' in e['result']:
-                        problems.append(f"schedule_job:{e['result']['err']}")
-                    elif e['result']['ok']['rc'] == 0:
-                        progressed = True
-                        s = now()
-                        await do({'op': 'mark_started', 'batch': b, 'job': j, 'attempt': a, 'instance': name, 'time': s})
-                        await do({'op': 'mark_complete', 'batch': b, 'job': j, 'attempt': a, 'instance': name, 'state': 'Success',
-                                  'start': s, 'end': now(), 'reason': 'completed', 'time': now()})
-                    await do({'op': 'deactivate_instance', 'name': name, 'reason': 'deactivated', 'time': now()})
-        if not progressed:
-            break
-    else:
-        problems.append('no-quiescence')
-    return extra, xents, problems
+    """Simulate a fair driver + workers after the history (C39 liveness): Driver.quiesce.  Returns (extra ops, extra ents, problems)."""
+    import random as _random
+    if not ents:
+        return [], [], []
+    d = Driver(live, _random.Random(0))
+    d.ops = list(ops)
+    d.ents = list(ents)
+    d.t = max([o.get('time', 0) for o in ops if isinstance(o.get('time'), int)] + [1000]) + 1000
+    await d.quiesce(max_rounds)
+    return d.ops[len(ops):], d.ents[len(ents):], d.problems
 
 
 # ----------------------------------------------------------------------------------------------------------------------
@@ -760,7 +696,7 @@ class Driver:
         await self.do({'op': 'activate_instance', 'name': name, 'time': self.now()}, message=True)
         return name
 
-    async def step(self, force=None):
+    async def step(self, force=None, user=None, ic=None, ckind=None):
         """One driver / worker / environment step chosen from what the actual state enables.  Returns True if something was done."""
         r = self.r
         v = self.view()
@@ -771,7 +707,7 @@ class Driver:
         if self.sent and r.random() < self.p_dup:
             kinds = ['replay']
         elif r.random() < self.p_preempt:
-            kinds = ['preempt']
+            kinds = ['preempt', 'late-worker']
         kind = force or r.choice(kinds)
         if kind == 'replay':
             await self.do(copy.deepcopy(r.choice(self.sent[-12:])))
@@ -779,13 +715,28 @@ class Driver:
         if kind == 'preempt':
             live = [n for n, row in v.instances.items() if row[1] in ('pending', 'active')]
             if live:
-                await self.do({'op': 'deactivate_instance', 'name': r.choice(live), 'reason': r.choice(['preempted', 'deactivated']),
-                               'time': self.now()}, message=True)
+                name = r.choice(live)
+                reason = 'activation_timeout' if (v.instances[name][1] == 'pending' and r.random() < 0.7) else r.choice(['preempted', 'deactivated'])
+                await self.do({'op': 'deactivate_instance', 'name': name, 'reason': reason, 'time': self.now()}, message=True)
                 return True
             return False
+        if kind == 'late-worker':
+            # a worker report that raced with the deactivation of its instance (the active_instances_only check passed before)
+            dead = [(b, j, a, at) for (b, j, a), at in sorted(v.attempts.items())
+                    if at[3] in v.instances and v.instances[at[3]][1] in ('inactive', 'deleted')]
+            if not dead:
+                return False
+            b, j, a, at = r.choice(dead)
+            if r.random() < 0.5:
+                await self.do({'op': 'billing_update', 'instance': at[3], 'time': self.now(), 'attempts': [[b, j, a]]}, message=True)
+            else:
+                t0 = self.now()
+                await self.do({'op': 'mark_complete', 'batch': b, 'job': j, 'attempt': a, 'instance': at[3], 'state': r.choice(['Success', 'Failed']),
+                               'start': t0 - r.randint(0, 60), 'end': t0 + r.randint(0, 60), 'reason': 'completed', 'time': self.now()}, message=True)
+            return True
         if kind == 'schedule':
-            u = r.choice(users)
-            ic = r.choice(sorted(self.live.config['inst_colls']))
+            u = user or r.choice(users)
+            ic = ic or r.choice(sorted(self.live.config['inst_colls']))
             res = (await self.do({'op': 'scheduler_pick', 'inst_coll': ic, 'user': u}))['result']
             jobs = res.get('ok', {}).get('jobs', [])
             if not jobs:
@@ -808,6 +759,15 @@ class Driver:
         if kind == 'activate':
             pend = [n for n, row in v.instances.items() if row[1] == 'pending']
             if not pend:
+                # JobPrivateInstanceManager.schedule_jobs_loop_body: Creating jobs whose instance is already active
+                for (b, j, a), at in sorted(v.attempts.items()):
+                    job = v.jobs.get((b, j))
+                    inst = v.instances.get(at[3])
+                    if job is not None and job.state == 'Creating' and job.attempt == a and inst is not None and inst[1] == 'active':
+                        e = await self.do({'op': 'schedule_job', 'batch': b, 'job': j, 'attempt': a, 'instance': at[3]}, message=True)
+                        if 'err' in e['result']:
+                            self.problems.append(f"{e['result']['err']}")
+                        return True
                 return False
             name = r.choice(pend)
             await self.do({'op': 'activate_instance', 'name': name, 'time': self.now()}, message=True)
@@ -847,8 +807,8 @@ class Driver:
                                    'resources': [{'name': r.choice(['cpu', 'mem']), 'quantity': r.choice([1, 3])}]}, message=True)
             return True
         if kind == 'cancel':
-            u = r.choice(users)
-            k2 = r.choice(['ready', 'creating', 'running'])
+            u = user or r.choice(users)
+            k2 = ckind or r.choice(['ready', 'creating', 'running'])
             res = (await self.do({'op': 'canceller_pick', 'kind': k2, 'user': u}))['result']
             jobs = res.get('ok', {}).get('jobs', [])
             if not jobs:
@@ -894,9 +854,18 @@ class Driver:
         idle = 0
         for _ in range(max_rounds * 8):
             did = False
-            for kind in ('cancel', 'activate', 'worker', 'schedule', 'orphans'):
+            users = sorted({row[1] for row in self.view().batches.values()})
+            for u in users:
+                for ck in ('ready', 'creating', 'running'):
+                    while await self.step(force='cancel', user=u, ckind=ck):
+                        did = True
+            for kind in ('activate', 'worker', 'orphans'):
                 for _rep in range(3):
                     if await self.step(force=kind):
+                        did = True
+            for u in users:
+                for c in sorted(self.live.config['inst_colls']):
+                    if await self.step(force='schedule', user=u, ic=c):
                         did = True
             if did:
                 idle = 0
